@@ -983,7 +983,9 @@ def planner(
         # set the final order of the multiindex
         best_index, matches = best_index.finalize()
 
-        if best_index is INDEXES["created_at"] and not (query.since or query.until):
+        if best_index is INDEXES["created_at"] and (
+            query.since is None and query.until is None
+        ):
             # don't allow range scans
             if log:
                 log.info("No range scans allowed %s", query_items)
@@ -1062,10 +1064,11 @@ def compile_match_from_query(query_items: tuple):
         elif key == "kinds":
             col = FIELDS_TO_COLUMNS["kind"]
             filter_clauses.add(f"(et[{col}] in {value!r})")
-        elif key == "since" and value:
+        elif key == "since":
+            # (a bound of 0 must not fall through to the tag branch below)
             col = FIELDS_TO_COLUMNS["created_at"]
             filter_clauses.add(f"(et[{col}] >= {value!r})")
-        elif key == "until" and value:
+        elif key == "until":
             col = FIELDS_TO_COLUMNS["created_at"]
             filter_clauses.add(f"(et[{col}] <= {value!r})")
         elif key == "search" and Config.fts_enabled:
